@@ -65,6 +65,44 @@ def r_presence(ck: Checker, rule: str = "R-PRESENCE") -> None:
 
 
 # --------------------------------------------------------------------------- enumeration shape
+ABC_NAMES = {"Iterable", "Iterator", "Collection", "Sequence", "Sized", "Container", "Reversible", "Mapping"}
+
+
+def r_child_abc(ck: Checker, rule: str = "R-PRESENCE") -> None:
+    """A child value is told apart as single node / tuple of nodes by `isinstance(x, tuple)` (or ASTNode), never by an
+    abstract-collection test a node class can satisfy itself (a node defining __iter__ / __len__ / __contains__ is Iterable / Sized /
+    Collection): the derived accessors (`children`, duplicate, visitors) must list such a node, not splice it."""
+    mods = [ck.repo.mod("pyoak.node"), ck.repo.mod("pyoak.visitor"), ck.repo.mod("pyoak.tree")]
+    what = "values of child fields are classified by isinstance(x, tuple) / isinstance(x, ASTNode), never by an abstract-collection test"
+    n = 0
+    # the accessors and operations the properties speak about (pretty printing, ASTNode._rich, is not among them)
+    scope = {"ASTNode.children", "ASTNode.duplicate", "ASTNode.gather", "ASTNode.dfs", "ASTNode.bfs", "ASTNode.get_child_nodes", "ASTNode.get_child_nodes_with_field",
+             "ASTNode.iter_child_fields", "ASTNode.to_properties_dict", "ASTNode.__post_init__", "Tree.__init__"}
+    for f in ck.repo.functions(mods):
+        src = any(isinstance(c, ast.Call) and isinstance(c.func, ast.Attribute) and c.func.attr in ("iter_child_fields", "get_child_nodes", "get_child_nodes_with_field")
+                  for c in ast.walk(f.node))
+        if not src or not (f.qualname in scope or f.mod.name == "pyoak.visitor"):
+            continue
+        for c in ast.walk(f.node):
+            if isinstance(c, ast.Call) and dotted(c.func) == "isinstance" and len(c.args) == 2:
+                names = {x.id for x in ast.walk(c.args[1]) if isinstance(x, ast.Name)} | {x.attr for x in ast.walk(c.args[1]) if isinstance(x, ast.Attribute)}
+                if names & ABC_NAMES:
+                    n += 1
+                    ck.violation(rule, f, c, what, construct=f"{f.qualname}: {norm(c)[:60]} decides how a child value is handled (a node class may satisfy this ABC)")
+                    return
+    ck.holds(rule, ("src/pyoak", "node.py, visitor.py, tree.py"), None, what)
+    # `children` is the list of get_child_nodes()
+    ch = ck.repo.func("pyoak.node", "ASTNode.children")
+    rets = [r for r in ast.walk(ch.node) if isinstance(r, ast.Return) and r.value is not None]
+    what2 = "ASTNode.children is the materialised get_child_nodes() stream"
+    if len(rets) == 1 and norm(rets[0].value) in ("list(self.get_child_nodes())", "[*self.get_child_nodes()]", "list(self.get_child_nodes(sort_keys=False))"):
+        ck.holds(rule, ch, rets[0], what2)
+    elif any("get_child_nodes(" in norm(r.value) for r in rets):
+        raise Unsupported(f"ASTNode.children returns {[norm(r.value)[:50] for r in rets]}", ch.node)
+    else:
+        ck.violation(rule, ch, ch.node, what2, construct=f"ASTNode.children is rebuilt from {[norm(r.value)[:50] for r in rets]} instead of get_child_nodes()")
+
+
 def r_enum_shape(ck: Checker, rule: str = "R-ENUM-SHAPE") -> None:
     n = 0
     for gen in ("_gen_get_child_nodes_func", "_gen_get_child_nodes_with_field_func", "_gen_iter_child_fields_func"):
